@@ -323,7 +323,8 @@ def r5_termination(chk, funcs):
             st = _stmt_of(f.node, c)
             i = blk.index(st)
             # the variable must have been assigned from next(reader) in this function
-            src = [s for s in walk_no_nested(f.node) if isinstance(s, ast.Assign) and arg in stored_paths(s) and has_call(s.value, {"next"})]
+            src = [s for s in walk_no_nested(f.node) if isinstance(s, ast.Assign) and arg in stored_paths(s) and has_call(s.value, {"next"})] + \
+                  [s for s in walk_no_nested(f.node) if isinstance(s, ast.NamedExpr) and norm(s.target) == arg and has_call(s.value, {"next"})]
             inner_while = _innermost_while(f.node, c)
             outer = [s for s in walk_no_nested(f.node) if isinstance(s, ast.While)]
             leaves = True
@@ -414,12 +415,18 @@ def line_reader(chk):
     chk.decide(ok and bool(hs), "C10.R4", f"{ne.key}:only-eof-becomes-none", ne.where(), "StopIteration -> None, everything else re-raised",
                "next_noexcept turns errors other than end of input into None")
     # __next__ takes put-back lines first, in FIFO order, else the stream
-    src = norm(nx.node)
-    ok = "self._extra_lines.popleft()" in src and "next(self._io)" in src
+    pops = [c for c in walk_no_nested(nx.node) if isinstance(c, ast.Call) and isinstance(c.func, ast.Attribute) and norm(c.func.value) == "self._extra_lines" and c.func.attr in ("pop", "popleft") and not c.args]
+    reads = calls_named(nx.node, {"next"})
+    ok = len(pops) == 1 and any(c.args and norm(c.args[0]) == "self._io" for c in reads)
     chk.decide(ok, "C10.R5", f"{nx.key}:consumes-one-line", nx.where(), "pops a put-back line or reads one line from the stream",
                "LineReader.__next__ no longer consumes exactly one line per call")
-    ok = "self._extra_lines.append(line)" in norm(pb.node) or "self._extra_lines.appendleft(line)" in norm(pb.node)
-    chk.decide(ok, "C10.R5", f"{pb.key}:stores-line", pb.where(), "put_back stores the line for the next read", "put_back does not store the line")
+    ln = pb.params()[1]
+    push = [c for c in walk_no_nested(pb.node) if isinstance(c, ast.Call) and isinstance(c.func, ast.Attribute) and norm(c.func.value) == "self._extra_lines" and c.func.attr in ("append", "appendleft")
+            and len(c.args) == 1 and norm(c.args[0]) == ln]
+    # lines put back are served oldest first: push and pop use opposite ends of the deque
+    fifo = len(push) == 1 and len(pops) == 1 and (pops[0].func.attr, push[0].func.attr) in (("popleft", "append"), ("pop", "appendleft"))
+    chk.decide(fifo, "C10.R5", f"{pb.key}:stores-line", pb.where(), "put_back stores the line for the next read (first put back, first served)",
+               "put_back does not store the line at the end of the deque opposite to the one __next__ takes from")
 
 
 def r7_suppression_rearmed(chk, rm):
